@@ -328,8 +328,9 @@ def run(ctx, ck):
     # find the stacking  np.array([a.T, b.T, c.T]).T  that feeds the masked dB conversion
     stack = None
     for n in walk_no_nested(f.node):
-        if isinstance(n, ast.Call) and (dotted(n.func) or '').endswith('np.array') and n.args \
-           and isinstance(n.args[0], ast.List) and len(n.args[0].elts) == 3:
+        if isinstance(n, ast.Call) and (dotted(n.func) or '') in ('np.array', 'numpy.array', 'np.stack', 'numpy.stack',
+                                                                   'np.dstack', 'numpy.dstack') and n.args \
+           and isinstance(n.args[0], (ast.List, ast.Tuple)) and len(n.args[0].elts) == 3:
             els = [base_name(e) for e in n.args[0].elts]
             tot_expr = None
             if els[2] is None:
